@@ -285,7 +285,17 @@ Definition api_set_created (p : list N) (before : bool) (secs nanos : N) : M uni
   set_entry_with_path p (fun e =>
     if objtype_eqb (d_type e) TStream then e else set_ctime e (from_system_time before secs nanos)).
 
-(* ---- streams ---- *)
+(* ---- streams: the handle of Handle.v over the compound file ---- *)
+Definition stream_len_of (id : N) : M N := do e <- dir_entry id; ret (d_len e).
+Definition handle_new' := handle_new cstate stream_len_of.
+Definition flush_changes' := flush_changes cstate write_data stream_len_of.
+Definition h_fill_buf' := h_fill_buf cstate read_data write_data stream_len_of.
+Definition h_read' := h_read cstate read_data write_data stream_len_of.
+Definition h_seek' := h_seek cstate write_data stream_len_of.
+Definition h_write' := h_write cstate write_data stream_len_of.
+Definition h_set_len' := h_set_len cstate write_data resize stream_len_of.
+Definition h_flush' := h_flush cstate write_data stream_len_of.
+
 Definition api_open_stream (p : list N) (maxbuf : N) : M handle :=
   do names <- names_of p;
   do r <- lookup names;
@@ -293,7 +303,7 @@ Definition api_open_stream (p : list N) (maxbuf : N) : M handle :=
   | None => fail ENotFound
   | Some id =>
     do e <- dir_entry id;
-    if negb (objtype_eqb (d_type e) TStream) then fail EInvalidInput else handle_new id maxbuf
+    if negb (objtype_eqb (d_type e) TStream) then fail EInvalidInput else handle_new' id maxbuf
   end.
 
 Definition api_create_stream (p : list N) (overwrite : bool) (maxbuf now : N) : M handle :=
@@ -305,8 +315,8 @@ Definition api_create_stream (p : list N) (overwrite : bool) (maxbuf now : N) : 
     if negb (objtype_eqb (d_type e) TStream) then fail EAlreadyExists
     else if negb overwrite then fail EAlreadyExists
     else
-      do h <- handle_new id maxbuf;
-      fun s => match h_set_len h 0 s with
+      do h <- handle_new' id maxbuf;
+      fun s => match h_set_len' h 0 s with
                | (s1, (h1, Ok _)) => (s1, Ok h1)
                | (s1, (_, Err k)) => (s1, Err k)
                | (s1, (_, Panic n)) => (s1, Panic n)
@@ -324,7 +334,7 @@ Definition api_create_stream (p : list N) (overwrite : bool) (maxbuf now : N) : 
         do pe <- dir_entry pid;
         if objtype_eqb (d_type pe) TStream then fail EInvalidInput else
         do id <- insert_dir_entry pid nm TStream now;
-        handle_new id maxbuf
+        handle_new' id maxbuf
       end
     end
   end.
@@ -369,7 +379,7 @@ Definition with_new_handle (f : fstate) (i : N) (m : M handle) : fstate * res va
   | OutOfFuel => (mkF s' (hs f) (maxbuf f), OutOfFuel)
   end.
 
-Definition with_handle {A} (f : fstate) (i : N) (m : handle -> HM A) (k : A -> value) : fstate * res value :=
+Definition with_handle {A} (f : fstate) (i : N) (m : handle -> HM cstate A) (k : A -> value) : fstate * res value :=
   match nthN (hs f) i with
   | Some (Some h) =>
     let '(s', (h', r)) := m h (cs f) in
@@ -382,7 +392,7 @@ Fixpoint cat_go (fuel : nat) (h : handle) (acc : list byte) : M (list byte) :=
   match fuel with
   | O => out_of_fuel
   | S f => fun s =>
-    match h_fill_buf h s with
+    match h_fill_buf' h s with
     | (s1, (h1, Ok avail)) =>
       match avail with
       | [] => (s1, Ok acc)
@@ -401,7 +411,7 @@ Definition api_cat (p : list N) (maxbuf : N) : M (list byte) :=
 Definition drop_handle (f : fstate) (i : N) : fstate :=
   match nthN (hs f) i with
   | Some (Some h) =>
-    let '(s', _) := flush_changes h (cs f) in
+    let '(s', _) := flush_changes' h (cs f) in
     mkF s' (updN (hs f) i None) (maxbuf f)
   | _ => f
   end.
@@ -443,13 +453,13 @@ Definition step (f : fstate) (now : N) (o : op) : fstate * res value :=
   | OWalkStorage p => with_cs f (api_walk_storage p) VEntries
   | OFlushFile => (f, Ok VUnit)
   | OVersion => (f, Ok (VVersion (ver (cs f))))
-  | OHRead i n => with_handle f i (fun h => h_read h n) VBytes
-  | OHFill i => with_handle f i h_fill_buf VBytes
+  | OHRead i n => with_handle f i (fun h => h_read' h n) VBytes
+  | OHFill i => with_handle f i h_fill_buf' VBytes
   | OHConsume i k => with_handle f i (fun h s => (s, h_consume h k)) (fun _ => VUnit)
-  | OHWrite i bs => with_handle f i (fun h => h_write h bs) VNum
-  | OHSeek i w z => with_handle f i (fun h => h_seek h w z) VNum
-  | OHSetLen i n => with_handle f i (fun h => h_set_len h n) (fun _ => VUnit)
-  | OHFlush i => with_handle f i h_flush (fun _ => VUnit)
+  | OHWrite i bs => with_handle f i (fun h => h_write' h bs) VNum
+  | OHSeek i w z => with_handle f i (fun h => h_seek' h w z) VNum
+  | OHSetLen i n => with_handle f i (fun h => h_set_len' h n) (fun _ => VUnit)
+  | OHFlush i => with_handle f i h_flush' (fun _ => VUnit)
   | OHLen i => with_handle f i (fun h s => (s, (h, Ok (h_total h)))) VNum
   | OHPos i => with_handle f i (fun h s => (s, (h, Ok (h_position h)))) VNum
   | OHDrop i => (drop_handle f i, Ok VUnit)
